@@ -26,71 +26,64 @@ Lemma same_ip_refl rm : same_ip rm rm. Proof. intro; reflexivity. Qed.
 Lemma same_ip_trans a b c : same_ip a b -> same_ip b c -> same_ip a c.
 Proof. intros H1 H2 k. rewrite H2. apply H1. Qed.
 
+(* undoing the mark of one schema position: if it was not in progress before and the callee restored the marks *)
+Lemma unmark_same rm s rm2 : is_circular rm s = false -> same_ip (mark rm s) rm2 -> same_ip rm (set_done rm2 (marks_of s)).
+Proof.
+  intros Hc Hf k. rewrite inprog_set_done, Hf. destruct s as [r|m]; cbn [marks_of mark memp existsb]; [|reflexivity].
+  rewrite inprog_rset, orb_false_r, (Pos.eqb_sym k r). destruct (Pos.eqb r k) eqn:E; cbn; [|reflexivity].
+  apply Pos.eqb_eq in E. subst k. symmetry. exact Hc.
+Qed.
+
 Section Frame.
   Variable d : sdoc.
   Variable ld : nat -> rmap -> lres * rmap.
   Variable tn : sref -> option bool.
-  Hypothesis ld_frame : forall n rm, same_ip rm (snd (ld n rm)).
+  Hypothesis ld_frame : forall n rm, lres_ok (fst (ld n rm)) = true -> same_ip rm (snd (ld n rm)).
 
-  Lemma build_field_frame p rm : same_ip rm (snd (build_field ld tn d p rm)).
+  Lemma build_field_frame p rm : lres_ok (fst (build_field ld tn d p rm)) = true -> same_ip rm (snd (build_field ld tn d p rm)).
   Proof.
-    unfold build_field. destruct p as [r|n]; [apply same_ip_refl|].
-    destruct (kind_of d n) as [[r|m]| | |]; try apply same_ip_refl; [|apply ld_frame].
-    destruct (tn (SInl n)) as [[|]|]; try apply same_ip_refl. apply ld_frame.
+    unfold build_field. destruct p as [r|n]; [intros _; apply same_ip_refl|].
+    destruct (kind_of d n) as [[r|m]| | |]; try (intros _; apply same_ip_refl); [|apply ld_frame].
+    destruct (tn (SInl n)) as [b|]; [|discriminate].
+    destruct (b || is_arr d m); [apply ld_frame|intros _; apply same_ip_refl].
   Qed.
 
-  Lemma fields_frame l : forall rm, same_ip rm (snd (fields ld tn d l rm)).
+  Lemma fields_frame l : forall rm, lres_ok (fst (fields ld tn d l rm)) = true -> same_ip rm (snd (fields ld tn d l rm)).
   Proof.
-    induction l as [|p t IH]; intro rm; cbn [fields]; [apply same_ip_refl|].
-    pose proof (build_field_frame p rm) as Hb. destruct (build_field ld tn d p rm) as [res rm1]. cbn [snd] in Hb.
-    destruct (lres_ok res); [|exact Hb]. eapply same_ip_trans; [exact Hb|apply IH].
+    induction l as [|p t IH]; intro rm; cbn [fields]; [intros _; apply same_ip_refl|].
+    pose proof (build_field_frame p rm) as Hb. destruct (build_field ld tn d p rm) as [res rm1]. cbn [fst snd] in Hb.
+    destruct (lres_ok res) eqn:E; [|cbn [fst]; congruence].
+    intro H. eapply same_ip_trans; [apply Hb; reflexivity|apply IH, H].
   Qed.
 
-  Lemma allofs_frame l : forall rm,
-    (forall k, inprog (snd (fst (allofs ld d l rm))) k = inprog rm k || memp k (snd (allofs ld d l rm))) /\
-    (forall k, memp k (snd (allofs ld d l rm)) = true -> inprog rm k = false).
+  Lemma allofs_frame l : forall rm, lres_ok (fst (allofs ld d l rm)) = true -> same_ip rm (snd (allofs ld d l rm)).
   Proof.
-    induction l as [|s t IH]; intro rm; cbn [allofs].
-    - cbn. split; [intro; rewrite orb_false_r; reflexivity|discriminate].
-    - destruct (is_circular rm s) eqn:Hc.
-      + cbn. split; [intro; rewrite orb_false_r; reflexivity|discriminate].
-      + pose proof (ld_frame (value_of d s) (mark rm s)) as Hf.
-        destruct (ld (value_of d s) (mark rm s)) as [res rm2]. cbn [snd] in Hf.
-        assert (Hmark : forall k, inprog (mark rm s) k = inprog rm k || memp k (marks_of s)).
-        { intro k. destruct s as [r|m]; cbn [mark marks_of memp existsb]; [|rewrite orb_false_r; reflexivity].
-          rewrite inprog_rset, (Pos.eqb_sym k r). destruct (Pos.eqb r k); cbn; [rewrite orb_true_r|rewrite orb_false_r]; reflexivity. }
-        assert (Hnew : forall k, memp k (marks_of s) = true -> inprog rm k = false).
-        { intros k Hk. destruct s as [r|m]; cbn [marks_of memp existsb] in Hk; [|discriminate].
-          rewrite orb_false_r in Hk. apply Pos.eqb_eq in Hk. subst k. exact Hc. }
-        destruct (lres_ok res).
-        * specialize (IH rm2). destruct (allofs ld d t rm2) as [[res3 rm3] ms]. cbn [fst snd] in *. destruct IH as [IH1 IH2]. split.
-          -- intro k. rewrite IH1, Hf, Hmark, memp_app, orb_assoc. reflexivity.
-          -- intros k Hk. rewrite memp_app in Hk. apply orb_true_iff in Hk. destruct Hk as [Hk|Hk]; [apply Hnew, Hk|].
-             specialize (IH2 k Hk). rewrite Hf, Hmark in IH2. apply orb_false_iff in IH2. apply IH2.
-        * cbn [fst snd]. split; [intro k; rewrite Hf; apply Hmark|exact Hnew].
+    induction l as [|s t IH]; intro rm; cbn [allofs]; [intros _; apply same_ip_refl|].
+    destruct (is_circular rm s) eqn:Hc; [discriminate|].
+    pose proof (ld_frame (value_of d s) (mark rm s)) as Hf.
+    destruct (ld (value_of d s) (mark rm s)) as [res rm2]. cbn [fst snd] in Hf.
+    destruct (lres_ok res) eqn:E; [|cbn [fst]; congruence].
+    intro H. eapply same_ip_trans; [apply (unmark_same rm s rm2 Hc), Hf; reflexivity|apply IH, H].
   Qed.
 End Frame.
 
-(* loadTypeSchema restores the in-progress marks: whatever it set to false it sets to true before it returns, and it
-   never touches a mark that was in progress when it was called *)
-Theorem load_frame d fuel : forall n rm, same_ip rm (snd (load fuel d n rm)).
+(* a loadTypeSchema that SUCCEEDS leaves the in-progress marks exactly as it found them: whatever it set to false it has
+   set to true again, and it never touches a mark that was in progress when it was called. (A failing one leaves the
+   mark of the failing allOf part behind; its callers all return the error.) *)
+Theorem load_frame d fuel : forall n rm, lres_ok (fst (load fuel d n rm)) = true -> same_ip rm (snd (load fuel d n rm)).
 Proof.
-  induction fuel as [|f IH]; intros n rm; cbn [load]; [apply same_ip_refl|].
-  destruct (kind_of d n) as [it| |oneof allof props|]; try apply same_ip_refl.
-  - destruct (tn_obj f d it) as [[|]|]; try apply same_ip_refl.
-    destruct (is_circular rm it) eqn:Hc; [apply same_ip_refl|].
-    pose proof (IH (value_of d it) (mark rm it)) as Hf. destruct (load f d (value_of d it) (mark rm it)) as [res rm2]. cbn [snd] in *.
-    intro k. rewrite inprog_set_done, Hf. destruct it as [r|m]; cbn [marks_of mark memp existsb]; [|reflexivity].
-    rewrite inprog_rset, orb_false_r, (Pos.eqb_sym k r). destruct (Pos.eqb r k) eqn:E; cbn; [|reflexivity].
-    apply Pos.eqb_eq in E. subst k. symmetry. exact Hc.
+  induction fuel as [|f IH]; intros n rm; cbn [load]; [discriminate|].
+  destruct (kind_of d n) as [it| |oneof allof props|]; try (intros _; apply same_ip_refl).
+  - destruct (tn_obj f d it) as [b|]; [|discriminate].
+    destruct (b || inner_array d it); [|intros _; apply same_ip_refl].
+    destruct (is_circular rm it) eqn:Hc; [discriminate|].
+    pose proof (IH (value_of d it) (mark rm it)) as Hf. destruct (load f d (value_of d it) (mark rm it)) as [res rm2]. cbn [fst snd] in *.
+    intro H. apply (unmark_same rm it rm2 Hc), Hf, H.
   - destruct oneof as [|o os].
-    + pose proof (allofs_frame d (load f d) (IH) allof rm) as [H1 H2].
-      destruct (allofs (load f d) d allof rm) as [[res rm1] ms]. cbn [fst snd] in *.
-      assert (Hdone : forall rm2, same_ip rm1 rm2 -> same_ip rm (set_done rm2 ms)).
-      { intros rm2 H12 k. rewrite inprog_set_done, H12, H1. destruct (memp k ms) eqn:Hm; cbn; [symmetry; apply H2, Hm|apply orb_false_r]. }
-      destruct (lres_ok res); [|apply Hdone, same_ip_refl].
-      pose proof (fields_frame d (load f d) (tn_obj f d) IH props rm1) as Hf.
-      destruct (fields (load f d) (tn_obj f d) d props rm1) as [res2 rm2]. cbn [snd] in *. apply Hdone, Hf.
+    + pose proof (allofs_frame d (load f d) IH allof rm) as Ha.
+      destruct (allofs (load f d) d allof rm) as [res rm1]. cbn [fst snd] in *.
+      destruct (lres_ok res) eqn:E; [|cbn [fst]; congruence].
+      intro H. eapply same_ip_trans; [apply Ha; reflexivity|apply fields_frame; [exact IH|exact H]].
     + apply fields_frame, IH.
 Qed.
 
@@ -183,7 +176,7 @@ Section Term.
     Variable rm0 : rmap.       (* the marks when the frame was entered *)
     Hypothesis Hld : forall m rm, n < m -> m <= max_id d -> ip_sup rm0 rm -> fst (ld m rm) <> LFuel.
     Hypothesis Href : forall m rm, S (free d rm) <= free d rm0 -> fst (ld m rm) <> LFuel.
-    Hypothesis Hframe : forall m rm, same_ip rm (snd (ld m rm)).
+    Hypothesis Hframe : forall m rm, lres_ok (fst (ld m rm)) = true -> same_ip rm (snd (ld m rm)).
     Hypothesis Htn : forall m, n < m -> m <= max_id d -> tn (SInl m) <> None.
 
     Lemma build_field_term p rm : inline_ok (max_id d) n p = true -> ip_sup rm0 rm -> fst (build_field ld tn d p rm) <> LFuel.
@@ -191,7 +184,8 @@ Section Term.
       intros Hp Hs. unfold build_field. destruct p as [r|m]; [discriminate|].
       cbn in Hp. apply andb_true_iff in Hp. destruct Hp as [H1 H2]. apply Nat.ltb_lt in H1. apply Nat.leb_le in H2.
       destruct (kind_of d m) as [[r|k]| | |] eqn:Ek; try discriminate.
-      - specialize (Htn m H1 H2). destruct (tn (SInl m)) as [[|]|]; [|discriminate|congruence].
+      - specialize (Htn m H1 H2). destruct (tn (SInl m)) as [b|]; [|congruence].
+        destruct (b || is_arr d k); [|discriminate].
         destruct (child_inl m k) as [H3 H4]; [rewrite Ek; left; reflexivity|]. apply Hld; [lia|exact H4|exact Hs].
       - apply Hld; assumption.
     Qed.
@@ -203,12 +197,12 @@ Section Term.
       pose proof (build_field_term p rm (Hl p (or_introl eq_refl)) Hs) as Hb.
       pose proof (build_field_frame d ld tn Hframe p rm) as Hf.
       destruct (build_field ld tn d p rm) as [res rm1]. cbn [fst snd] in *.
-      destruct (lres_ok res); [|exact Hb]. apply IH; [intros q Hq; apply Hl; right; exact Hq|eapply ip_sup_same; eassumption].
+      destruct (lres_ok res) eqn:E; [|exact Hb]. apply IH; [intros q Hq; apply Hl; right; exact Hq|eapply ip_sup_same; [exact Hs|apply Hf; reflexivity]].
     Qed.
 
     Lemma allofs_term l : forall rm,
       (forall s, In s l -> inline_ok (max_id d) n s = true /\ forall r, s = SRef r -> In r (universe d)) -> ip_sup rm0 rm ->
-      fst (fst (allofs ld d l rm)) <> LFuel.
+      fst (allofs ld d l rm) <> LFuel.
     Proof.
       induction l as [|s t IH]; intros rm Hl Hs; cbn [allofs]; [discriminate|].
       destruct (is_circular rm s) eqn:Hc; [discriminate|].
@@ -218,13 +212,11 @@ Section Term.
         - apply Href. apply free_mark; [exact Hs|apply Hu; reflexivity|exact Hc].
         - cbn in Hok. apply andb_true_iff in Hok. destruct Hok as [H1 H2]. apply Nat.ltb_lt in H1. apply Nat.leb_le in H2.
           apply Hld; assumption. }
-      assert (Hsup : ip_sup rm0 (mark rm s)).
-      { intros k Hk. destruct s as [r|m]; cbn [mark]; [|apply Hs, Hk]. rewrite inprog_rset. destruct (Pos.eqb r k); [reflexivity|apply Hs, Hk]. }
       pose proof (Hframe (value_of d s) (mark rm s)) as Hf.
       destruct (ld (value_of d s) (mark rm s)) as [res rm2]. cbn [fst snd] in *.
-      destruct (lres_ok res); [|exact Hcall].
-      specialize (IH rm2 (fun q Hq => Hl q (or_intror Hq)) (ip_sup_same _ _ _ Hsup Hf)).
-      destruct (allofs ld d t rm2) as [[res3 rm3] ms]. exact IH.
+      destruct (lres_ok res) eqn:E; [|exact Hcall].
+      apply IH; [intros q Hq; apply Hl; right; exact Hq|].
+      eapply ip_sup_same; [exact Hs|apply (unmark_same rm s rm2 Hc), Hf; reflexivity].
     Qed.
   End Lists.
 
@@ -244,7 +236,8 @@ Section Term.
     - assert (Hit : In it (srefs_of (kind_of d n))) by (rewrite Ek; left; reflexivity).
       assert (Htn : tn_obj f d it <> None).
       { apply tn_obj_fuel. destruct it as [r|m]; cbn [tn_need]; [lia|]. destruct (child_inl n m Hit). lia. }
-      destruct (tn_obj f d it) as [[|]|]; [|discriminate|congruence].
+      destruct (tn_obj f d it) as [b|]; [|congruence].
+      destruct (b || inner_array d it); [|discriminate].
       destruct (is_circular rm it) eqn:Hc; [discriminate|].
       assert (Hcall : fst (load f d (value_of d it) (mark rm it)) <> LFuel).
       { destruct it as [r|m]; cbn [value_of mark].
@@ -255,16 +248,15 @@ Section Term.
       { intros s Hs. apply child_ok. rewrite Ek. exact Hs. }
       destruct oneof as [|o os].
       + pose proof (allofs_term (load f d) n rm HLd HRef (load_frame d f) allof rm) as Ha.
-        pose proof (allofs_frame d (load f d) (load_frame d f) allof rm) as [Hf1 _].
-        destruct (allofs (load f d) d allof rm) as [[res rm1] ms]. cbn [fst snd] in *.
+        pose proof (allofs_frame d (load f d) (load_frame d f) allof rm) as Hf1.
+        destruct (allofs (load f d) d allof rm) as [res rm1]. cbn [fst snd] in *.
         assert (Hres : res <> LFuel).
         { apply Ha; [|apply ip_sup_refl]. intros s Hs. split; [apply Hch; cbn; apply in_or_app; left; exact Hs|].
           intros r ->. apply (child_ref n). rewrite Ek. cbn. apply in_or_app; left; exact Hs. }
-        destruct (lres_ok res); [|exact Hres].
-        pose proof (fields_term (load f d) (tn_obj f d) n rm HLd (load_frame d f) HTn props rm1) as Hp.
-        destruct (fields (load f d) (tn_obj f d) d props rm1) as [res2 rm2]. cbn [fst] in *.
-        apply Hp; [intros p Hp'; apply Hch; cbn; apply in_or_app; right; exact Hp'|].
-        intros k Hk. rewrite Hf1, Hk. reflexivity.
+        destruct (lres_ok res) eqn:E; [|exact Hres].
+        apply (fields_term (load f d) (tn_obj f d) n rm HLd (load_frame d f) HTn);
+          [intros p Hp'; apply Hch; cbn; apply in_or_app; right; exact Hp'|].
+        intros k Hk. rewrite (Hf1 eq_refl). exact Hk.
       + apply (fields_term (load f d) (tn_obj f d) n rm HLd (load_frame d f) HTn); [|apply ip_sup_refl].
         intros p Hp. apply Hch. apply in_or_app; left; exact Hp.
   Qed.
@@ -277,8 +269,8 @@ Section Term.
     pose proof (load_frame d fuel (value_of d (SRef r)) rm) as Hs.
     destruct (load fuel d (value_of d (SRef r)) rm) as [res rm1]. cbn [fst snd] in *.
     assert (res <> LFuel) by (apply Ht; unfold req; lia).
-    destruct (lres_ok res); [|assumption]. apply IH.
-    assert (free d rm1 <= free d rm) by (apply free_le; intros k Hk; rewrite Hs; exact Hk). nia.
+    destruct (lres_ok res) eqn:E; [|assumption]. apply IH.
+    assert (free d rm1 <= free d rm) by (apply free_le; intros k Hk; rewrite (Hs eq_refl); exact Hk). nia.
   Qed.
 End Term.
 
@@ -299,6 +291,10 @@ Definition doc_through_inline : sdoc :=
      defs := [(2%positive, 1); (3%positive, 2)]; order := [2%positive; 3%positive] |}.
 Example ex_through_inline : inline_increasing doc_through_inline = true /\ import_swagger doc_through_inline = LCirc.
 Proof. vm_compute. split; reflexivity. Qed.
+(* since c310a5e an allOf diamond is no circle: A allOf [B, C]; C allOf [B]; B {} *)
+Example ex_allof_diamond : import_swagger {| nodes := [(1, KObj [] [SRef 3%positive; SRef 4%positive] []); (2, KObj [] [] []); (3, KObj [] [SRef 3%positive] [])];
+                                             defs := [(2%positive, 1); (3%positive, 2); (4%positive, 3)]; order := [2%positive; 3%positive; 4%positive] |} = LOk.
+Proof. vm_compute. reflexivity. Qed.
 (* a circle through a property reference only is not followed at all: A {p: $ref A} imports *)
 Example ex_prop_circle_ok : import_swagger {| nodes := [(1, KObj [] [] [SRef 2%positive])]; defs := [(2%positive, 1)]; order := [2%positive] |} = LOk.
 Proof. vm_compute. reflexivity. Qed.
@@ -313,7 +309,7 @@ Definition build_field_r (ld:nat -> rmap -> lres * rmap) (tn:sref -> option bool
   | SInl n =>
       match kind_of d n with
       | KArr (SRef _) => (LOk, rm)
-      | KArr (SInl m) => match tn p with None => (LFuel, rm) | Some true => ld m [] | Some false => (LOk, rm) end
+      | KArr (SInl m) => match tn p with None => (LFuel, rm) | Some b => if b || is_arr d m then ld m [] else (LOk, rm) end
       | KArrNoItems => (LOk, rm)
       | KObj _ _ _ => ld n []
       | KPrim => (LOk, rm)
@@ -331,19 +327,18 @@ Fixpoint load_r (fuel:nat) (d:sdoc) (n:nat) (rm:rmap) : lres * rmap :=
     | KArr it =>
         match tn_obj f d it with
         | None => (LFuel, rm)
-        | Some true =>
-            if is_circular rm it then (LCirc, rm)
-            else let '(res, rm2) := load_r f d (value_of d it) (mark rm it) in (res, set_done rm2 (marks_of it))
-        | Some false => (LOk, rm)
+        | Some b =>
+            if b || inner_array d it then
+              if is_circular rm it then (LCirc, rm)
+              else let '(res, rm2) := load_r f d (value_of d it) (mark rm it) in (res, set_done rm2 (marks_of it))
+            else (LOk, rm)
         end
     | KObj oneof allof props =>
         match oneof with
         | _ :: _ => fields_r (load_r f d) (tn_obj f d) d oneof rm
         | [] =>
-            let '(res, rm1, ms) := allofs (load_r f d) d allof rm in
-            if lres_ok res
-            then let '(res2, rm2) := fields_r (load_r f d) (tn_obj f d) d props rm1 in (res2, set_done rm2 ms)
-            else (res, set_done rm1 ms)
+            let '(res, rm1) := allofs (load_r f d) d allof rm in
+            if lres_ok res then fields_r (load_r f d) (tn_obj f d) d props rm1 else (res, rm1)
         end
     | KPrim => (LOk, rm)
     end
